@@ -20,7 +20,14 @@ type c18Combo struct {
 	// the ways a switch can be present (0 = the plain one)
 	SVar int // stdin: 0 = a pipe, 1 = redirected from a regular file
 	EVar int // key pair in the environment: see c18EnvVars
+	DVar int // values of the two date switches when both are given: see c18DateVars
 }
+
+// c18DateVars: values the two date switches can carry.  Only the first pair is what the documentation describes (epoch
+// seconds, start before end); what happens with the others is not decided by the statement (class "open"), but a
+// rejection - wherever it is decided - must still be free of side effects.
+var c18DateVars = [][2]string{{"1700000000", "1700003600"}, {"NaN", "NaN"}, {"1700003600", "1700000000"}, {"-5", "1700003600"}, {"1700000000123", "1700003600123"}, {"1.7e9", "1700003600"},
+	{"Infinity", "1700003600"}, {"abc", "1700003600"}, {"", "1700003600"}, {"1700000000", "1e300"}, {"0", "0"}, {"1700000000", "99999999999999999999"}}
 
 // c18EnvVars: what "key pair in the environment" can look like.  Only a variable with a non-empty value
 // supplies its half of the pair.
@@ -53,6 +60,9 @@ func (k c18Combo) String() string {
 			}
 			if n == "env-keys" && k.EVar != 0 {
 				n = "env-keys(" + c18EnvVars[k.EVar].name + ")"
+			}
+			if n == "--atlasLogStartDate" && k.DVar != 0 {
+				n = fmt.Sprintf("--atlasLogStartDate=%s --atlasLogEndDate=%s", c18DateVars[k.DVar][0], c18DateVars[k.DVar][1])
 			}
 			p = append(p, n)
 		}
@@ -91,6 +101,8 @@ func c18Rule(k c18Combo) (string, string) {
 		return "must-reject", "encrypt-without-file-in-and-out"
 	case atlasAny && !atlasMode && !xor(k.F, k.S):
 		return "must-reject", "atlas-flags-without-project-and-cluster"
+	case k.A && k.B && k.DVar != 0:
+		return "open", "date-values-outside-the-documented-form"
 	case atlasAny && !atlasMode:
 		return "open", "atlas-key-or-date-flags-next-to-a-real-input"
 	case atlasMode && k.Y:
@@ -118,16 +130,19 @@ func c18Run(c *Ctx) {
 			continue
 		}
 		k0 := c18FromMask(mask)
-		nS, nE := 1, 1
+		nS, nE, nD := 1, 1, 1
 		if k0.S {
 			nS = 2
 		}
 		if k0.E {
 			nE = len(c18EnvVars)
 		}
-		for variant := 0; variant < nS*nE; variant++ {
+		if k0.A && k0.B && k0.P && k0.C {
+			nD = len(c18DateVars) // date values matter where the dates are used: complete Atlas jobs
+		}
+		for variant := 0; variant < nS*nE*nD; variant++ {
 			k := k0
-			k.SVar, k.EVar = variant%nS, variant/nS
+			k.SVar, k.EVar, k.DVar = variant%nS, variant/nS%nE, variant/(nS*nE)
 			class, rule := c18Rule(k)
 			for pre := 0; pre < 2; pre++ {
 				if pre == 1 && !k.O {
@@ -170,10 +185,10 @@ func c18Run(c *Ctx) {
 					args = append(args, "--atlasPrivateKey", script.Private)
 				}
 				if k.A {
-					args = append(args, "--atlasLogStartDate", "1700000000")
+					args = append(args, "--atlasLogStartDate="+c18DateVars[k.DVar][0])
 				}
 				if k.B {
-					args = append(args, "--atlasLogEndDate", "1700003600")
+					args = append(args, "--atlasLogEndDate="+c18DateVars[k.DVar][1])
 				}
 				env := []string{"VERIF_MODE=child-cli", "VERIF_ATLAS_SCRIPT=" + scriptPath, "VERIF_ATLAS_LOG=" + reqLog}
 				if k.E {
